@@ -14,7 +14,10 @@ RES=/verif/seeded/KILLMATRIX.txt
 for ID in $IDS; do
   P=${ID%%-*}
   WT=$(mktemp -d /tmp/km-XXXXXX); rmdir "$WT"
-  git -C /repo worktree add -q --detach "$WT" HEAD || { echo "$ID worktree-failed"; continue; }
+  # each change applies to the /repo commit it was written against (recorded in its meta.json)
+  BASE=$(sed -n 's/.*"base_commit": *"\([0-9a-f]*\)".*/\1/p' "/verif/seeded/$ID/meta.json" | head -1)
+  [ -z "$BASE" ] && BASE=HEAD
+  git -C /repo worktree add -q --detach "$WT" "$BASE" || { echo "$ID worktree-failed"; continue; }
   if ! git -C "$WT" apply "/verif/seeded/$ID/patch.diff"; then
     echo "$ID patch-does-not-apply" | tee -a "$RES"; git -C /repo worktree remove --force "$WT"; continue
   fi
